@@ -24,16 +24,25 @@ implementations are exercised without a server: the dialect's bind processor
 composed with its result processor (fake cursor value) must call the
 decorator's hooks exactly once per element.
 
-Mutations caught: see the end of the module docstring (filled in after runs).
+Mutations caught: (private copy of lib/, quick tier, each gave VIOLATION lines)
+  * sql/compiler.py visit_label registering NULLTYPE instead of label.type (processor dropped for labels)
+    -> result processing x0 in label / scalar-subquery / coalesce / type_coerce(...);
+  * sql/elements.py TypeCoerce.typed_expression not re-typing an existing bind parameter
+    -> bind processing x0 in type_coerce(bindparam);
+  * engine/_processors_cy.py str_to_datetime parsing ``value[:19]`` (microseconds lost) -> value changed: DateTime;
+  * to_decimal_processor_factory with scale-1 -> value changed: Numeric(10,2);
+  * TypeDecorator.result_processor applying process_result_value *before* the impl processor
+    -> error / value changed with the marking decorators on DateTime, Boolean, Enum;
+  * compiler._label_returning_column not populating the result map -> result processing x0 in insert..returning.
 """
 import datetime as dt
 import decimal
 import enum
-import itertools
 import uuid
 import warnings
 
 from sqlalchemy import BigInteger
+from sqlalchemy import bindparam
 from sqlalchemy import Boolean
 from sqlalchemy import cast
 from sqlalchemy import Column
@@ -78,13 +87,36 @@ ID = "C09"
 LEVEL = "exploration"
 META = dict(
     engine="I",
-    technique="placeholder",
+    technique="exhaustive enumeration of type variant x boundary value x nesting context on a real SQLite database, "
+    "with counting and non-idempotent TypeDecorators as probes",
     design_ref="DESIGN.md §5 C09",
-    level_text="placeholder",
-    level_note="placeholder",
-    rule="placeholder",
-    assumptions=[],
-    bounds=dict(quick="placeholder", thorough="placeholder"),
+    level_text="33 type variants (Integer family, Numeric scales 0/2/4 and asdecimal off, Float, String/Text/Unicode, Boolean "
+    "with and without constraint, Date, DateTime with/without timezone flag, Time, Interval, LargeBinary, five Enum "
+    "configurations, JSON x2, Uuid x3, PickleType), each wrapped in a counting TypeDecorator (and nine of them also in a "
+    "non-idempotent marking one), x every boundary value of the variant's domain (ints +-2^k+-1, scale edges, calendar and "
+    "microsecond edges, NUL/empty/unicode strings and bytes, nested JSON with None, all enum members, NULL) x 6 ways of "
+    "writing (insert, insert.values, insert..returning, executemany..returning, update..returning, ORM flush) x ~30 reading "
+    "contexts (plain, label, subquery, subquery of label, CTE, UNION/UNION ALL, union in subquery, scalar subquery, max, "
+    "coalesce, repeated column, type_coerce of column / plain column / label, bound literal 3 ways, cast, WHERE =/IN, "
+    "mappings, yield_per, ORM entity load with two column_property, ORM attribute select, ORM expire+reload), executed on "
+    "pysqlite and again through aiosqlite. Every statement is executed; value equality and the exact number of "
+    "process_bind_param / process_result_value calls are checked on each. Complete for the listed product.",
+    level_note="Only SQLite executes. Other dialects (postgresql, asyncpg, mysql, mssql, oracle): the dialect-level bind "
+    "processor composed with the result processor is run on a fake cursor value and only the hook counts are judged; "
+    "postgresql ARRAY is checked the same way (element visits and shape). timezone-aware datetimes are outside SQLite's "
+    "domain (its storage format has no offset). Float NaN/inf excluded (SQLite turns NaN into NULL). Trusted: the ~40 "
+    "line comparison/counting harness in this file.",
+    rule="case = (driver, type variant, decorator kind, value, statement/context); every case executes a statement on the "
+    "database; non-trivial = every one of them (a value is written or fetched through the decorated type and its hook "
+    "count is checked); compose cases are non-trivial when the dialect has both processors and accepted the value",
+    assumptions=[
+        "values are inside the type's documented domain on SQLite (no tz-aware datetimes, no NaN, <= 15 significant digits for Numeric)",
+        "int and float are one family when comparing what SQLite returns for integral REAL values",
+    ],
+    bounds=dict(
+        quick="33 variants x boundary value sets (ints: 9 bit positions) x all writers x all contexts x 2 drivers; compose x 5 dialects; ARRAY 9 shapes",
+        thorough="as quick with ints +-2^k+-1 for every k < 64 and every 2-decimal value in [-1.20, 1.20]; plus all ordered pairs inside 4 type families in UNION/CASE/COALESCE",
+    ),
 )
 
 LOG = []  # [(hook, decorator tag)]
@@ -101,7 +133,7 @@ class Num(enum.IntEnum):
     two = 2
 
 
-def counting(impl_cls, *args, **kw):
+def counting(impl_cls, *args, _tag="", **kw):
     """instance of a fresh TypeDecorator subclass over impl_cls(*args, **kw) that only counts its hook calls"""
 
     class Counting(TypeDecorator):
@@ -109,11 +141,11 @@ def counting(impl_cls, *args, **kw):
         cache_ok = True
 
         def process_bind_param(self, value, dialect):
-            LOG.append("b")
+            LOG.append("b" + _tag)
             return value
 
         def process_result_value(self, value, dialect):
-            LOG.append("r")
+            LOG.append("r" + _tag)
             return value
 
     Counting.__name__ = "Counting_" + impl_cls.__name__
@@ -193,10 +225,10 @@ def variants(tier):
     V = []
 
     def add(name, cls, args, kw, values, flags, mark=None):
-        def make(kind):
+        def make(kind, tag=""):
             if kind == "mark":
                 return marking(cls, mark[0], mark[1], *args, **kw)
-            return counting(cls, *args, **kw)
+            return counting(cls, *args, _tag=tag, **kw)
 
         V.append((name, make, list(values) + [None], set(flags), mark is not None))
 
@@ -207,7 +239,9 @@ def variants(tier):
     add("Integer", Integer, (), {}, [v for v in _ints(64, dense) if v < 2**63 - 1], ALL, inc)
     add("SmallInteger", SmallInteger, (), {}, _ints(16, dense), ALL)
     add("BigInteger", BigInteger, (), {}, _ints(64, dense), ALL)
-    add("Numeric(10,2)", Numeric, (10, 2), {}, _decimals(2, dense), ALL | {"castnum"})
+    dinc = (lambda v: v + 1, lambda v: v - 1)
+    day = (lambda v: v + dt.timedelta(days=1), lambda v: v - dt.timedelta(days=1))
+    add("Numeric(10,2)", Numeric, (10, 2), {}, _decimals(2, dense), ALL | {"castnum"}, dinc)
     add("Numeric(12,4)", Numeric, (12, 4), {}, _decimals(4, False), ALL | {"castnum"})
     add("Numeric(8,0)", Numeric, (8, 0), {}, _decimals(0, False), ALL | {"castnum"})
     add("Numeric(asdecimal=False)", Numeric, (10, 2), dict(asdecimal=False), [float(v) for v in _decimals(2, False)], ALL)
@@ -216,15 +250,18 @@ def variants(tier):
     add("String(50)", String, (50,), {}, [s for s in STRINGS if len(s) <= 50], ALL, pre)
     add("Text", Text, (), {}, STRINGS, ALL)
     add("Unicode(50)", Unicode, (50,), {}, [s for s in STRINGS if len(s) <= 50], ALL)
-    add("Boolean", Boolean, (), {}, [True, False], ALL)
+    add("Boolean", Boolean, (), {}, [True, False], ALL, (lambda v: not v, lambda v: not v))
     add("Boolean(constraint)", Boolean, (), dict(create_constraint=True, name="ck_bool"), [True, False], ALL)
     add("Date", Date, (), {}, DATES, {"eq", "union", "max"})
-    add("DateTime", DateTime, (), {}, DATETIMES, {"eq", "union", "max"})
+    add("DateTime", DateTime, (), {}, [v for v in DATETIMES if v.year < 9999], {"eq", "union", "max"}, day)
+    add("DateTime(all)", DateTime, (), {}, DATETIMES, {"eq", "union", "max"})
     add("DateTime(timezone=True)", DateTime, (), dict(timezone=True), DATETIMES[:8], {"eq", "union", "max"})
     add("Time", Time, (), {}, TIMES, {"eq", "union", "max"})
     add("Interval", Interval, (), {}, INTERVALS, {"eq", "union", "max"})
     add("LargeBinary", LargeBinary, (), {}, BYTES, ALL, bpre)
-    add("Enum(pyenum)", Enum, (Color,), {}, list(Color), ALL)
+    rot = {Color.red: Color.green, Color.green: Color.blue, Color.blue: Color.red}
+    unrot = {v: k for k, v in rot.items()}
+    add("Enum(pyenum)", Enum, (Color,), {}, list(Color), ALL, (rot.__getitem__, unrot.__getitem__))
     add("Enum(pyenum,non-native,constraint)", Enum, (Color,), dict(native_enum=False, create_constraint=True, name="ck_color"), list(Color), ALL)
     add("Enum(values_callable)", Enum, (Color,), dict(values_callable=lambda c: [e.value for e in c]), list(Color), ALL)
     add("Enum(strings)", Enum, ("a", "B b", "c'q", ""), dict(name="e_str"), ["a", "B b", "c'q", ""], ALL)
@@ -244,9 +281,12 @@ def variants(tier):
 class World:
     """one table + mapped class per (type variant, decorator kind) on a private in-memory database"""
 
-    def __init__(self, name, make, kind):
+    def __init__(self, name, make, kind, conn=None):
         self.name = name
-        self.engine = create_engine("sqlite://", poolclass=StaticPool)
+        self.engine = None
+        if conn is None:
+            self.engine = create_engine("sqlite://", poolclass=StaticPool)
+            conn = self.engine.connect()
         self.md = MetaData()
         self.typ = make(kind)
         self.t = Table("t", self.md, Column("id", Integer, primary_key=True), Column("v", self.typ))
@@ -263,25 +303,46 @@ class World:
         reg.map_imperatively(
             Ent,
             t,
-            properties=dict(vprop=column_property(select(t2.c.v).where(t2.c.id == t.c.id).scalar_subquery()), vlabel=column_property(t.c.v.label("vl"))),
+            properties=dict(vprop=column_property(select(t2.c.v).where(t2.c.id == t.c.id).scalar_subquery()), vlabel=column_property(type_coerce(t.c.v, self.typ2).label("vl"))),
         )
         self.Ent = Ent
-        self.conn = self.engine.connect()
+        self.conn = conn
         self.md.create_all(self.conn)
 
     def close(self):
-        self.conn.close()
-        self.engine.dispose()
+        if self.engine is not None:
+            self.conn.close()
+            self.engine.dispose()
 
 
-def same(a, b, approx=None):
-    if type(a) is not type(b) and not (isinstance(a, (int, float, D)) and isinstance(b, (int, float, D)) and not isinstance(a, bool) and not isinstance(b, bool)):
-        # bool vs int, str vs bytes, Enum vs str ... are different values
-        if not (isinstance(a, enum.Enum) and isinstance(b, enum.Enum)):
-            return a is None and b is None
-    if isinstance(a, float) and isinstance(b, float):
-        return a == b and (str(a) == str(b) or a != 0)  # -0.0 vs 0.0: SQLite keeps the sign; accept both
-    return a == b
+def with_world(driver, name, make, kind, body):
+    """run body(World) on the pysqlite driver, or on aiosqlite (the whole body inside AsyncConnection.run_sync, so the
+    identical synchronous statements go through the asyncio adaptation layer and the aiosqlite cursor)"""
+    if driver == "sqlite":
+        w = World(name, make, kind)
+        try:
+            return body(w)
+        finally:
+            w.close()
+    import asyncio
+
+    from sqlalchemy.ext.asyncio import create_async_engine
+
+    async def main():
+        eng = create_async_engine("sqlite+aiosqlite://", poolclass=StaticPool)
+        try:
+            async with eng.connect() as ac:
+                return await ac.run_sync(lambda sc: body(World(name, make, kind, sc)))
+        finally:
+            await eng.dispose()
+
+    return asyncio.run(main())
+
+
+def same(a, b):
+    """compares equal, and has the same Python type - except that an integral REAL may come back from SQLite as an
+    int (0.0 -> 0 through NUMERIC affinity / RETURNING; -0.0 loses its sign): int and float are one family"""
+    return a == b and (type(a) is type(b) or {type(a), type(b)} <= {int, float})
 
 
 def contexts(w, flags, value):
@@ -314,9 +375,13 @@ def contexts(w, flags, value):
     C.append(("type_coerce(column)", sel(select(type_coerce(t.c.v, w.typ2))), 0, 1, one))
     C.append(("type_coerce(plain column)", sel(select(type_coerce(w.plain.c.v, w.typ2))), 0, 1, one))
     C.append(("type_coerce(label)", sel(select(type_coerce(t.c.v, w.typ2).label("tc"))), 0, 1, one))
-    C.append(("bound literal", sel(select(type_coerce(value, typ))), 1, 1, one))
-    C.append(("bound literal (literal())", sel(select(literal(value, typ))), 1, 1, one))
-    C.append(("bound literal in subquery", sel(select(select(literal(value, typ).label("p")).subquery().c.p)), 1, 1, one))
+    if value is not None:  # (a None literal is rendered as NULL, there is nothing to bind)
+        C.append(("type_coerce(bindparam)", sel(select(type_coerce(bindparam("p", value), typ))), 1, 1, one))
+        C.append(("type_coerce(bindparam of the plain type)", sel(select(type_coerce(bindparam("p", value, type_=w.plain.c.v.type), typ))), 1, 1, one))
+        C.append(("type_coerce(bindparam) in where", lambda: [r[0] for r in c.execute(select(t.c.id).where(t.c.v == type_coerce(bindparam("p", value), typ)))] if "eq" in flags else [1], 1 if "eq" in flags else 0, 0, [1]))
+        C.append(("bound literal", sel(select(type_coerce(value, typ))), 1, 1, one))
+        C.append(("bound literal (literal())", sel(select(literal(value, typ))), 1, 1, one))
+        C.append(("bound literal in subquery", sel(select(select(literal(value, typ).label("p")).subquery().c.p)), 1, 1, one))
     if "cast" in flags and value is not None or ("cast" in flags and "castnum" not in flags):
         C.append(("cast(column)", sel(select(cast(t.c.v, w.typ2))), 0, 1, one))
     if "eq" in flags and value is not None:
@@ -403,7 +468,6 @@ def writers(w, value):
             e.v = value
             s.add(e)
             s.flush()
-            n = len(LOG)
             s.commit()
         return []
 
@@ -411,7 +475,7 @@ def writers(w, value):
     return W
 
 
-def run_value(w, flags, value, approx, out, rec=None):
+def run_value(w, flags, value, out):
     """store ``value`` each way; after the last way read it back through every context"""
     stats = []
 
@@ -421,11 +485,11 @@ def run_value(w, flags, value, approx, out, rec=None):
             with warnings.catch_warnings():
                 warnings.simplefilter("ignore")
                 got = thunk()
-        except (exc.SQLAlchemyError, ValueError, TypeError, OverflowError, decimal.InvalidOperation) as e:
+        except Exception as e:  # the statement is well-formed and the value in the domain: any failure is the implementation's
             w.conn.rollback()
             out.append(("error in %s" % ctx, "%s: %s" % (type(e).__name__, str(e)[:200])))
             return
-        b, r = LOG.count("b"), LOG.count("r")
+        b, r = sum(1 for x in LOG if x[0] == "b"), sum(1 for x in LOG if x[0] == "r")
         if b != nb:
             out.append(("bind processing x%d in %s" % (b, ctx), "process_bind_param ran %d time(s) for %d bound value(s)" % (b, nb)))
         if r != nr:
@@ -442,6 +506,69 @@ def run_value(w, flags, value, approx, out, rec=None):
         one(ctx, thunk, nb, nr, expect)
     w.conn.commit()
     return stats
+
+
+# ------------------------------------------------------- pairwise coercions (thorough)
+
+FAMILIES = [
+    (["Integer", "SmallInteger", "BigInteger", "Boolean"], [0, 1]),
+    (["String(50)", "Text", "Unicode(50)", "Enum(strings)"], ["a", "c'q"]),
+    (["Numeric(10,2)", "Numeric(12,4)", "Numeric(8,0)"], [D("1"), D("-2")]),
+    (["Float", "Numeric(asdecimal=False)"], [1.5, -2.0]),
+]
+
+
+def pair_case(tier, na, nb, va, vb, out):
+    """two decorated columns of compatible types meet in UNION / CASE / COALESCE: every fetched value is processed
+    exactly once (by whichever decorator the construct's type is - never by both, never by none)"""
+    from sqlalchemy import case as sa_case
+
+    A = _variant(tier, na)[1]("count", "A")
+    B = _variant(tier, nb)[1]("count", "B")
+    va = bool(va) if na == "Boolean" else va
+    vb = bool(vb) if nb == "Boolean" else vb
+    eng = create_engine("sqlite://", poolclass=StaticPool)
+    md = MetaData()
+    ta = Table("ta", md, Column("id", Integer, primary_key=True), Column("v", A))
+    tb = Table("tb", md, Column("id", Integer, primary_key=True), Column("v", B))
+    n = 0
+    try:
+        with eng.connect() as c, warnings.catch_warnings():
+            warnings.simplefilter("ignore")
+            md.create_all(c)
+            c.execute(insert(ta), dict(id=1, v=va))
+            c.execute(insert(tb), dict(id=1, v=vb))
+            stmts = [
+                ("union_all(A,B)", union_all(select(ta.c.v), select(tb.c.v)), [va, vb]),
+                ("union_all(B,A)", union_all(select(tb.c.v), select(ta.c.v)), [vb, va]),
+                ("union_all subquery", select(union_all(select(ta.c.v), select(tb.c.v)).subquery().c.v), [va, vb]),
+                ("case", select(sa_case((ta.c.id == 1, ta.c.v), else_=tb.c.v)).select_from(ta.join(tb, ta.c.id == tb.c.id)), [va]),
+                ("case else", select(sa_case((ta.c.id == 2, ta.c.v), else_=tb.c.v)).select_from(ta.join(tb, ta.c.id == tb.c.id)), [vb]),
+                ("coalesce", select(func.coalesce(ta.c.v, tb.c.v)).select_from(ta.join(tb, ta.c.id == tb.c.id)), [va]),
+                ("scalar subquery of B in A", select(ta.c.v, select(tb.c.v).scalar_subquery()), None),
+            ]
+            for name, stmt, expect in stmts:
+                del LOG[:]
+                try:
+                    rows = c.execute(stmt).all()
+                except (exc.SQLAlchemyError, ValueError, TypeError, LookupError) as e:
+                    out.append(("pair error in %s" % name, "%s: %s" % (type(e).__name__, str(e)[:200])))
+                    continue
+                nvals = sum(len(r) for r in rows)
+                r = sum(1 for x in LOG if x[0] == "r")
+                n += 1
+                if r != nvals:
+                    out.append(("pair result processing in %s" % name, "%d call(s) %r for %d fetched value(s)" % (r, LOG, nvals)))
+                if expect is None:
+                    if [x for x in LOG if x[0] == "r"] != ["rA", "rB"]:
+                        out.append(("pair result processing in %s" % name, "decorators ran %r, expected A then B" % (LOG,)))
+                elif na == nb or type(_variant(tier, na)[1]("count").impl) is type(_variant(tier, nb)[1]("count").impl):
+                    got = sorted((x[0] for x in rows), key=repr)
+                    if not (len(got) == len(expect) and all(same(g, x) for g, x in zip(got, sorted(expect, key=repr)))):
+                        out.append(("pair value changed in %s" % name, "got %r expected %r" % (got, expect)))
+    finally:
+        eng.dispose()
+    return n
 
 
 # ------------------------------------------------------- other dialects (no server)
@@ -463,10 +590,10 @@ def composition_case(dname, vname, make, value, out):
     d = OTHER_DIALECTS[dname]()
     typ = make("count")
     try:
-        impl = typ.dialect_impl(d)
+        typ.dialect_impl(d)
         bp = typ._cached_bind_processor(d)
         rp = typ._cached_result_processor(d, None)
-    except (exc.SQLAlchemyError, NotImplementedError, TypeError) as e:
+    except (exc.SQLAlchemyError, NotImplementedError, TypeError):
         return "n/a"
     del LOG[:]
     try:
@@ -474,14 +601,13 @@ def composition_case(dname, vname, make, value, out):
     except Exception as e:
         out.append(("%s bind processor error" % dname, "%s: %s(%r): %s" % (vname, type(e).__name__, value, e)))
         return "err"
-    nb = LOG.count("b")
+    nb = sum(1 for x in LOG if x[0] == "b")
     if bp is None or nb != 1:
         out.append(("%s bind processing x%d" % (dname, nb), "%s: value %r" % (vname, value)))
     del LOG[:]
     try:
-        back = rp(sent) if rp else sent
+        rp(sent) if rp else sent
     except Exception:
-        back = None
         if LOG.count("r") > 1:
             out.append(("%s result processing x%d" % (dname, LOG.count("r")), "%s: value %r" % (vname, value)))
         return "fake-value-rejected"
@@ -531,7 +657,11 @@ def shards(tier, seed):
         out.append(("sqlite", name, "count"))
         if has_mark:
             out.append(("sqlite", name, "mark"))
+        out.append(("aiosqlite", name, "count"))
     out.append(("compose", None, None))
+    if tier == "thorough":
+        for fi in range(len(FAMILIES)):
+            out.append(("pairs", fi, None))
     return out
 
 
@@ -544,6 +674,19 @@ def _variant(tier, name):
 
 def run_shard(shard, tier, rec):
     route, name, kind = shard
+    if route == "pairs":
+        names, vals = FAMILIES[name]
+        for na in names:
+            for nb in names:
+                for va in vals:
+                    for vb in vals:
+                        out = []
+                        n = pair_case(tier, na, nb, va, vb, out)
+                        rec.case(("pair", na, nb, repr(va), repr(vb)), nontrivial=na != nb, n=n)
+                        rec.outcome(("pair", na, nb, repr(va), repr(vb), n))
+                        for k, d in out:
+                            rec.violation("%s: %s x %s" % (k, na, nb), d, dict(route="pairs", a=na, b=nb, va=vals.index(va), vb=vals.index(vb), family=name, tier=tier), kind=k)
+        return
     if route == "compose":
         for vname, make, values, flags, _ in variants(tier):
             for dname in OTHER_DIALECTS:
@@ -562,21 +705,27 @@ def run_shard(shard, tier, rec):
                 rec.violation("%s: dims=%r" % (k, dims), d, dict(route="array", dims=dims, values=vals), kind=k)
         return
     vname, make, values, flags, _ = _variant(tier, name)
-    w = World(vname, make, kind)
-    try:
+
+    def body(w):
         for i, value in enumerate(values):
             out = []
-            stats = run_value(w, flags, value, None, out)
+            stats = run_value(w, flags, value, out)
             for ctx, b, r in stats:
-                rec.case((vname, kind, i, ctx), nontrivial=True)
+                rec.case((route, vname, kind, i, ctx), nontrivial=True)
             rec.outcome((vname, kind, repr(value)))
             rec.count("values")
+            rec.count("statements_" + route, len(stats))
             if i in (1, len(values) // 2):
-                rec.sample(dict(type=vname, decorator=kind, value=repr(value)[:60], contexts=len(stats)))
+                rec.sample(dict(driver=route, type=vname, decorator=kind, value=repr(value)[:60], contexts=len(stats)))
             for k, d in out:
-                rec.violation("%s: %s" % (k, vname), "value #%d %r (%s decorator): %s" % (i, value, kind, d), dict(route="sqlite", variant=vname, kind=kind, value_index=i, tier=tier), kind=k)
-    finally:
-        w.close()
+                rec.violation(
+                    "%s: %s" % (k, vname),
+                    "driver %s, value #%d %r (%s decorator): %s" % (route, i, value, kind, d),
+                    dict(route=route, variant=vname, kind=kind, value_index=i, tier=tier),
+                    kind=k,
+                )
+
+    with_world(route, vname, make, kind, body)
 
 
 def replay(case):
@@ -584,14 +733,14 @@ def replay(case):
     if case["route"] == "array":
         array_case(case["dims"], case["values"], out)
         return [("%s: dims=%r" % (k, case["dims"]), d) for k, d in out]
+    if case["route"] == "pairs":
+        vals = FAMILIES[case["family"]][1]
+        pair_case(case["tier"], case["a"], case["b"], vals[case["va"]], vals[case["vb"]], out)
+        return [("%s: %s x %s" % (k, case["a"], case["b"]), d) for k, d in out]
     vname, make, values, flags, _ = _variant(case["tier"], case["variant"])
     value = values[case["value_index"]]
     if case["route"] == "compose":
         composition_case(case["dialect"], vname, make, value, out)
     else:
-        w = World(vname, make, case["kind"])
-        try:
-            run_value(w, flags, value, None, out)
-        finally:
-            w.close()
+        with_world(case["route"], vname, make, case["kind"], lambda w: run_value(w, flags, value, out))
     return [("%s: %s" % (k, vname), d) for k, d in out]
